@@ -59,7 +59,13 @@ def _run_variant(job):
     d = tempfile.mkdtemp(prefix='pkstatic-variant-')
     try:
         _copy_sources(d)
-        if patch:
+        if module == '*transform*':
+            from .benign import MODS, transform_source
+            for mod in MODS:
+                path = os.path.join(d, PKG, f'{mod}.py')
+                text = transform_source(open(path, encoding='utf-8').read(), old)
+                open(path, 'w', encoding='utf-8').write(text)
+        elif patch:
             r = subprocess.run(['git', 'apply', patch], cwd=d, capture_output=True, text=True)
             if r.returncode != 0:
                 return dict(name=name, kind=kind, status='stale', detail='patch does not apply to the current tree')
@@ -97,6 +103,9 @@ def jobs_for(pids=None):
         ps2 = tuple(p for p in ps if not pids or p in pids)
         if ps2:
             jobs.append(('silent', ps2, module, old, new, None, None, f'silent-{i:03d}-{"+".join(ps2)}'))
+    allp = tuple(sorted(pids)) if pids else tuple(f'C{i:02d}' for i in range(1, 21))
+    for tname in ('rename', 'flipcmp', 'swapif', 'all'):
+        jobs.append(('silent', allp, '*transform*', tname, None, None, None, f'silent-transform-{tname}'))
     for patch in sorted(glob.glob(os.path.join(VERIF, 'seeded', '*', 'patch.diff'))):
         name = os.path.basename(os.path.dirname(patch))
         pid = name.split('_')[0]
